@@ -60,7 +60,7 @@ let next_optz c = if next_bool c then Some (next_z c) else None
 
 let buf = Buffer.create 65536
 
-let print_str (s : str) =
+let print_str (s : n list) =
   Buffer.clear buf;
   let first = ref true in
   List.iter
